@@ -194,3 +194,73 @@ func c06BoolCorr(ctx *Ctx) error {
 	}
 	return nil
 }
+
+// c06UuidCorr: uuid.Parse (through openapi_types.UUID) and the runtime binder vs UuidParse.parse; the accepted bytes render
+// to the canonical text.
+func c06UuidCorr(ctx *Ctx, n int) error {
+	canon := "123e4567-e89b-12d3-a456-426614174000"
+	fixed := []string{canon, strings.ToUpper(canon), "urn:uuid:" + canon, "URN:UUID:" + canon, "urn:uuix:" + canon, "{" + canon + "}", "x" + canon + "y",
+		strings.ReplaceAll(canon, "-", ""), canon[:35], canon + "0", "123e4567-e89b-12d3-a456-42661417400g", "123e4567e89b-12d3-a456-4266141740000",
+		"123e4567-e89b-12d3-a456_426614174000", "", "00000000-0000-0000-0000-000000000000", "ffffffff-ffff-ffff-ffff-ffffffffffff",
+		"１23e4567-e89b-12d3-a456-4266141740", strings.Repeat("g", 32), strings.Repeat("A", 32)}
+	hexd := "0123456789abcdefABCDEFgG-x"
+	for i := 0; i < n+len(fixed); i++ {
+		r := ctx.Rng.Fork()
+		s := ""
+		if i < len(fixed) {
+			s = fixed[i]
+		} else {
+			// a canonical text with a few characters replaced or one inserted / dropped
+			b := []byte(canon)
+			for k, m := 0, r.Intn(3); k < m; k++ {
+				b[r.Intn(len(b))] = hexd[r.Intn(len(hexd))]
+			}
+			s = string(b)
+			switch r.Intn(6) {
+			case 0:
+				s = s[:len(s)-1]
+			case 1:
+				s = "urn:uuid:" + s
+			case 2:
+				s = "{" + s + "}"
+			case 3:
+				s = strings.ReplaceAll(s, "-", "")
+			}
+		}
+		var m struct {
+			Ok    []int  `json:"ok"`
+			Text  string `json:"text"`
+			Error string `json:"error"`
+		}
+		if err := ctx.Model(J{"fn": "parseUuid", "s": hx(s)}, &m); err != nil {
+			return err
+		}
+		model := "error"
+		if m.Error == "" {
+			model = unhx(m.Text)
+		}
+		c := J{"text": s}
+		ctx.Res.Eval(c, true)
+		ctx.Res.Count("corr:uuid")
+		impl := "error"
+		var u openapi_types.UUID
+		if err := u.UnmarshalText([]byte(s)); err == nil {
+			impl = u.String()
+		}
+		if impl != model {
+			ctx.Res.Disagree("CORR uuid.Parse / String vs UuidParse.parse / render", c, model, impl)
+		}
+		if s == "" {
+			continue
+		}
+		var d openapi_types.UUID
+		bound := "error"
+		if err := runtime.BindStyledParameterWithOptions("simple", "p", s, &d, runtime.BindStyledParameterOptions{ParamLocation: runtime.ParamLocationHeader, Explode: false, Required: true}); err == nil {
+			bound = d.String()
+		}
+		if bound != model {
+			ctx.Res.Disagree("CORR runtime.BindStyledParameterWithOptions (UUID destination) vs UuidParse.parse", c, model, bound)
+		}
+	}
+	return nil
+}
